@@ -26,6 +26,16 @@ fn hint_case<const K: usize>(omega: usize, y: &[u8], bad: &mut u32) {
 
 fn hint_family<const K: usize>(omega: usize, bad: &mut u32) {
     let mut rng = Lcg(0x5EED + K as u64);
+    // hostile maximal sections: strictly increasing position bytes all the way, counts beyond omega (up to 255),
+    // so that a decoder that trusts a count walks past the end of the section
+    for base in [omega + 1, omega + K + 1, 200, 255 - K] {
+        let mut y = std::vec![0u8; omega + K];
+        for i in 0..omega { y[i] = i as u8; }
+        for i in 0..K { y[omega + i] = core::cmp::min(255, base + i) as u8; }
+        let yy = y.clone();
+        let r = std::panic::catch_unwind(move || { let mut b = 0u32; hint_case::<K>(omega, &yy, &mut b); b });
+        match r { Ok(b) => *bad += b, Err(_) => { std::println!("C08 hint decoder PANICS on counts beyond omega: K={} y[omega..]={:?}", K, &y[omega..]); *bad += 1; } }
+    }
     // a valid base: counts spread over polynomials, strictly increasing indices inside each
     for round in 0..400 {
         let mut y = std::vec![0u8; omega + K];
